@@ -3,23 +3,24 @@
 macro_rules! format {
     ($($arg:tt)*) => { $crate::vshim::string::format(format_args!($($arg)*)) };
 }
+// `vec!` builds whichever of `Vec` / `BVec` the context asks for (see vshim::vec::VecLike).
 #[macro_export]
 macro_rules! vec {
-    () => { $crate::vshim::vec::Vec::new() };
+    () => { ::core::default::Default::default() };
     ($elem:expr; $n:expr) => {{
-        let mut v = $crate::vshim::vec::Vec::new();
+        let mut v = ::core::default::Default::default();
         let e = $elem;
         let n: usize = $n;
         let mut i: usize = 0;
         while i < n {
-            v.push(e.clone());
+            $crate::vshim::vec::VecLike::vpush(&mut v, e.clone());
             i += 1;
         }
         v
     }};
     ($($x:expr),+ $(,)?) => {{
-        let mut v = $crate::vshim::vec::Vec::new();
-        $( v.push($x); )+
+        let mut v = ::core::default::Default::default();
+        $( $crate::vshim::vec::VecLike::vpush(&mut v, $x); )+
         v
     }};
 }
